@@ -643,3 +643,30 @@ _amend("C18", "Distinct by case hash.",
        "(mcast, where the machine has a multicast-capable interface) the stream of a plain or RTSPS server whose only reader is a multicast one; RTP "
        "packets of limit-12..limit+12 (limit = maximum, minus 10 when secure) are written to the stream and a passive member of the group reads what "
        "is sent: a write above the limit is refused and no datagram on the group exceeds the maximum. Distinct by case hash.")
+_c11_jobs2 = PROPS["C11"]["jobs"]
+PROPS["C11"]["jobs"] = lambda tier: _c11_jobs2(tier) + [
+    seeded("keepalive", "e2e", "^TestC11Keep$", 10 if tier == "quick" else 200, 8, timeout=1800)]
+_amend("C11", "(ghost) a UDP reader,",
+       "(keepalive) a scripted peer that plays through the RTSP-over-HTTP or the WebSocket tunnel (plain or TLS) and keeps 1..4 requests in flight "
+       "while 50..400 packets per media are written to it: the process survives, the tunnel's byte stream stays parseable and complete. (ghost) a UDP reader,")
+_amend("C01", "a scripted reader over interleaved TCP (plain or inside TLS) that keeps",
+       "a scripted reader over interleaved TCP (plain or inside TLS; directly, through the RTSP-over-HTTP tunnel or through the WebSocket tunnel) that keeps")
+_amend("C02", "Distinct by case hash.",
+       "The live sub-check also has peers that reach the server through the RTSP-over-HTTP or WebSocket tunnel (judged like TCP peers), readers with "
+       "multicast delivery (reports from the reader's address and the group's RTCP port), and UDP / multicast peers whose control connection goes away "
+       "right after PLAY/RECORD: their session must not end with the connection but by its timeout. Distinct by case hash.")
+_amend("C10", "no credentials => 401",
+       "a step may also send again, on a request of another method, the very Authorization header an earlier request of the connection was accepted "
+       "with (wrong for Digest, which binds the method): no credentials => 401")
+_amend("C17", "(wire) RTSPS worlds",
+       "When the first SETUP is accepted, a third of the cases set up a second media of the same session with the other profile, which must be "
+       "refused (one session, one profile). (wire) RTSPS worlds")
+_amend("C19", "(control) a session in state set-up / play / record / paused",
+       "(client-source) the SETUP answer names 127.0.0.2 as the media source: RTP and RTCP from that address reach the application, the same kinds of "
+       "packets from the control connection's own address (same ports) do not. (control-frames) a second connection from the same address gets itself "
+       "associated with a session (OPTIONS / GET_PARAMETER / SET_PARAMETER carrying the session id) before the session starts recording or playing over "
+       "its own interleaved connection, then sends interleaved frames without any request: none of them is handed to the application. (control) a "
+       "session in state set-up / play / record / paused")
+_amend("C12", "back channels, AnyPortEnable,",
+       "back channels, AnyPortEnable, the first RTCP port the client tries to bind taken by somebody else at that moment, the GET channel of an HTTP "
+       "tunnel reset after 0..4 responses,")
